@@ -495,25 +495,28 @@ Section LineParse.
 Variable O : oracles.
 Variable tu : bool.
 
-Lemma prom_line_head : forall tc nm its R, Forall item_ok its ->
-  prom_line O tu tc (head_toks nm its ++ R) = prom_series O tu tc (Some (rawname nm)) (map raw its) R.
+Lemma prom_line_head : forall tc nm its v R0, Forall item_ok its ->
+  prom_line O tu tc (head_toks nm its ++ (tValue, v) :: R0) =
+  prom_series O tu tc (Some (rawname nm)) (map raw its) ((tValue, v) :: R0).
 Proof.
-  intros tc nm its R Hok. unfold head_toks, rawname.
+  intros tc nm its v R0 Hok. remember ((tValue, v) :: R0) as R eqn:HR. unfold head_toks, rawname.
   destruct (is_legacy_name nm) eqn:E; destruct its as [|i r].
-  - simpl. destruct R as [|[k x] R']; [reflexivity|]. destruct k; reflexivity.
-  - inversion Hok as [|? ? Hi Hr]; subst.
-    change (((tMName, nm) :: (tBraceOpen, [123]) :: (item_toks i ++ comma_items r) ++ [(tBraceClose, [125])]) ++ R)
-      with ((tMName, nm) :: (tBraceOpen, [123]) :: ((item_toks i ++ comma_items r) ++ [(tBraceClose, [125])]) ++ R).
-    repeat rewrite <- app_assoc. simpl app at 3.
+  - subst R. reflexivity.
+  - inversion Hok as [|? ? Hi Hr]; subst R.
+    change (((tMName, nm) :: (tBraceOpen, [123]) :: (item_toks i ++ comma_items r) ++ [(tBraceClose, [125])]) ++ (tValue, v) :: R0)
+      with ((tMName, nm) :: (tBraceOpen, [123]) :: ((item_toks i ++ comma_items r) ++ [(tBraceClose, [125])]) ++ (tValue, v) :: R0).
+    repeat rewrite <- app_assoc.
+    change ([(tBraceClose, [125])] ++ (tValue, v) :: R0) with ((tBraceClose, [125]) :: (tValue, v) :: R0).
     unfold prom_line. rewrite parse_lvals_items by assumption. reflexivity.
-  - simpl. rewrite strip_ends_q. reflexivity.
-  - inversion Hok as [|? ? Hi Hr]; subst.
-    change (((tBraceOpen, [123]) :: (tQString, quoted nm) :: (tComma, [44]) :: (item_toks i ++ comma_items r) ++ [(tBraceClose, [125])]) ++ R)
-      with ((tBraceOpen, [123]) :: (tQString, quoted nm) :: (tComma, [44]) :: ((item_toks i ++ comma_items r) ++ [(tBraceClose, [125])]) ++ R).
-    repeat rewrite <- app_assoc. simpl app at 3.
-    unfold prom_line. 
-    change (parse_lvals false false None [] ((tQString, quoted nm) :: (tComma, [44]) :: item_toks i ++ comma_items r ++ (tBraceClose, [125]) :: R))
-      with (parse_lvals false false (Some (strip_ends (quoted nm))) [] (item_toks i ++ comma_items r ++ (tBraceClose, [125]) :: R)).
+  - subst R. simpl. rewrite strip_ends_q. reflexivity.
+  - inversion Hok as [|? ? Hi Hr]; subst R.
+    change (((tBraceOpen, [123]) :: (tQString, quoted nm) :: (tComma, [44]) :: (item_toks i ++ comma_items r) ++ [(tBraceClose, [125])]) ++ (tValue, v) :: R0)
+      with ((tBraceOpen, [123]) :: (tQString, quoted nm) :: (tComma, [44]) :: ((item_toks i ++ comma_items r) ++ [(tBraceClose, [125])]) ++ (tValue, v) :: R0).
+    repeat rewrite <- app_assoc.
+    change ([(tBraceClose, [125])] ++ (tValue, v) :: R0) with ((tBraceClose, [125]) :: (tValue, v) :: R0).
+    unfold prom_line.
+    change (parse_lvals false false None [] ((tQString, quoted nm) :: (tComma, [44]) :: item_toks i ++ comma_items r ++ (tBraceClose, [125]) :: (tValue, v) :: R0))
+      with (parse_lvals false false (Some (strip_ends (quoted nm))) [] (item_toks i ++ comma_items r ++ (tBraceClose, [125]) :: (tValue, v) :: R0)).
     rewrite parse_lvals_items by assumption. rewrite strip_ends_q. reflexivity.
 Qed.
 End LineParse.
